@@ -152,11 +152,15 @@ def _judge(H, net):
         n_real += want
         # ---- query histories on the same object: another query first, then is_realizable again
         if max(fl) <= 1 and any(fl):
+            want2, n2 = oracle_realizable(pre, post, tuple(2 * x for x in fl), used)
+            from synkit.CRN.Path.realizability import RealizabilityConfig
+
             for first in ("scaled", "borrow", "konig", "real"):
-                pr2 = PathwayRealizability().load_hypergraph_and_flow(V, E, F).build_petri_net_from_flow()
+                # the object's own search bound: never reached by a correct search on these sizes (scaled flow included)
+                cfg = RealizabilityConfig(max_states=2 * max(nstates, n2) + 20, max_depth=10_000)
+                pr2 = PathwayRealizability(cfg).load_hypergraph_and_flow(V, E, F).build_petri_net_from_flow()
                 if first == "scaled":
                     sk = pr2.is_scaled_realizable(k_max=2)
-                    want2, _ = oracle_realizable(pre, post, tuple(2 * x for x in fl), used)
                     wsk = (True, 1) if want else ((True, 2) if want2 else (False, None))
                     if tuple(sk) != wsk:
                         fails.append(Fail("scaled", f"flow={fl}: {sk}", str(wsk), key_extra=str(fl)))
